@@ -4,8 +4,6 @@ import Holpy.C18.Gen
 import Holpy.C18.ProofsHyps
 import Holpy.C18.ProofsRes
 import Holpy.C18.ProofsProof
-import Holpy.C18.ProofsLA
-import Holpy.C18.ProofsArith
 /-
 C18 — property theorems.  `Interp` is an arbitrary first-order interpretation (Sem.lean); a
 sequent holds when its hypotheses imply its proposition.  Everything is about the model of the
@@ -33,17 +31,17 @@ def classified : List (String × Bool) := [
   ("verit_bind", false),
   ("verit_bool_simplify", true),
   ("verit_comp_simplify", true),
-  ("verit_cong", false),
+  ("verit_cong", true),
   ("verit_conj_pts", false),
   ("verit_connective_def", true),
   ("verit_contraction", true),
   ("verit_disj_pts", false),
   ("verit_distinct_elim", false),
-  ("verit_div_simplify", false),
+  ("verit_div_simplify", true),
   ("verit_eq_congruent", true),
   ("verit_eq_congruent_pred", false),
   ("verit_eq_reflexive", true),
-  ("verit_eq_simplify", false),
+  ("verit_eq_simplify", true),
   ("verit_eq_transitive", true),
   ("verit_equiv1", true),
   ("verit_equiv2", true),
@@ -122,7 +120,8 @@ theorem registry_classified : classified.map (·.1) = Gen.namesSorted := by deci
 theorem tier1_modelled : ∀ r ∈ Rule.all, (r.name, true) ∈ classified := by decide +kernel
 
 /-- … plus `verit_la_generic`, whose model (ModelLA.lean) works on parsed linear arithmetic -/
-theorem tier1_count : tier1.length = Rule.all.length + 4 ∧ ("verit_la_generic", true) ∈ classified
+theorem tier1_count : tier1.length = Rule.all.length + 6 ∧ ("verit_la_generic", true) ∈ classified
+    ∧ ("verit_div_simplify", true) ∈ classified ∧ ("verit_eq_simplify", true) ∈ classified
     ∧ ("verit_comp_simplify", true) ∈ classified ∧ ("verit_minus_simplify", true) ∈ classified
     ∧ ("verit_unary_minus_simplify", true) ∈ classified := by decide +kernel
 
@@ -197,58 +196,6 @@ example :
       .ok ⟨[], mkOr (mkNot (mkEq (.var 0) (.var 1))) (mkEq (.comb (.const 100) (.var 0)) (.comb (.const 100) (.var 1)))⟩
     ∧ eqCongruent [mkNot (mkEq (.var 0) (.var 1)), mkEq (.comb (.const 100) (.var 0)) (.comb (.const 100) (.var 2))] = .error .verit :=
   ⟨rfl, rfl, rfl, rfl⟩
-
-/-! ### la_generic / la_tautology -/
-
-/-- If `LAGenericMacro.eval` accepts a clause of (negated) `<`, `<=`, `=` literals with the given
-coefficients, the clause has a true literal under every valuation of its atoms — by rational
-numbers at sort real (the combination check), by integers at sort int (with the step
-`l > d ⟶ l >= d + 1` and the rounding of `k·(…) >= c` to the next multiple of the gcd `k`). -/
-theorem la_generic_sound :
-    (∀ (lits : List (LA.Lit ℚ)) (coeffs : List ℚ), LA.laGenericQ lits coeffs = true →
-      ∀ ρ : Nat → ℚ, ∃ l ∈ lits, LA.litTrue ρ l) ∧
-    (∀ (lits : List (LA.Lit ℤ)) (coeffs : List ℤ), LA.laGenericZ lits coeffs = true →
-      ∀ ρ : Nat → ℤ, ∃ l ∈ lits, LA.litTrue ρ l) :=
-  ⟨LA.laGenericQ_sound, LA.laGenericZ_sound⟩
-
-/-- non-vacuity: `~(-1 <= 2x) | ~(1 <= -2x)` is accepted over the integers (only by rounding: the real
-relaxation is satisfiable), `~(-3 <= 2x) | ~(1 <= -2x)` (false at x = -1) is rejected; over the
-reals `~(x <= 0) | ~(1 <= x)` is accepted with coefficients 1, 1 and rejected with 1, 0 -/
-example :
-    LA.laGenericZ [⟨true, .le, .num (-1), .mul 2 (.atom 0)⟩, ⟨true, .le, .num 1, .mul (-2) (.atom 0)⟩] [1, 1] = true
-    ∧ LA.laGenericZ [⟨true, .le, .num (-3), .mul 2 (.atom 0)⟩, ⟨true, .le, .num 1, .mul (-2) (.atom 0)⟩] [1, 1] = false
-    ∧ LA.laGenericQ [⟨true, .le, .atom 0, .num 0⟩, ⟨true, .le, .num 1, .atom 0⟩] [1, 1] = true
-    ∧ LA.laGenericQ [⟨true, .le, .atom 0, .num 0⟩, ⟨true, .le, .num 1, .atom 0⟩] [1, 0] = false := by
-  refine ⟨by decide, by decide, by decide +kernel, by decide +kernel⟩
-
-/-! ### arithmetic simplifications (ModelArith.lean: structural arithmetic terms) -/
-
-/-- comp_simplify, minus_simplify, unary_minus_simplify: an accepted equivalence `(t1 cmp t2) <--> rhs`
-resp. equation `lhs = rhs` holds under every valuation of the atoms by rationals (sort real) and
-by integers (sort int). -/
-theorem arith_simplify_sound :
-    (∀ (ρ : Nat → ℚ) c t1 t2 rhs, Arith.compSimplifyQ c t1 t2 rhs = true →
-      (Arith.cmpHolds c (Arith.evalA ρ t1) (Arith.evalA ρ t2) ↔ Arith.rhsHolds ρ rhs)) ∧
-    (∀ (ρ : Nat → ℤ) c t1 t2 rhs, Arith.compSimplifyZ c t1 t2 rhs = true →
-      (Arith.cmpHolds c (Arith.evalA ρ t1) (Arith.evalA ρ t2) ↔ Arith.rhsHolds ρ rhs)) ∧
-    (∀ (ρ : Nat → ℚ) l r, Arith.minusSimplifyQ l r = true → Arith.evalA ρ l = Arith.evalA ρ r) ∧
-    (∀ (ρ : Nat → ℤ) l r, Arith.minusSimplifyZ l r = true → Arith.evalA ρ l = Arith.evalA ρ r) ∧
-    (∀ (ρ : Nat → ℚ) l r, Arith.unaryMinusSimplifyQ l r = true → Arith.evalA ρ l = Arith.evalA ρ r) ∧
-    (∀ (ρ : Nat → ℤ) l r, Arith.unaryMinusSimplifyZ l r = true → Arith.evalA ρ l = Arith.evalA ρ r) :=
-  ⟨Arith.compSimplifyQ_sound, Arith.compSimplifyZ_sound, Arith.minusSimplifyQ_sound, Arith.minusSimplifyZ_sound,
-   Arith.unaryMinusSimplifyQ_sound, Arith.unaryMinusSimplifyZ_sound⟩
-
-/-- non-vacuity: `2 < 3 <--> true`, `x < y <--> ~(y <= x)` accepted, `x < y <--> ~(x <= y)` rejected;
-`x - 0 = x` accepted, `x - 0 = 0` rejected; `-(-x) = x` accepted, `-(x - y) = y` rejected -/
-example :
-    Arith.compSimplifyZ .lt (.lit 2) (.lit 3) .tt = true
-    ∧ Arith.compSimplifyZ .lt (.atom 0) (.atom 1) (.nle (.atom 1) (.atom 0)) = true
-    ∧ Arith.compSimplifyZ .lt (.atom 0) (.atom 1) (.nle (.atom 0) (.atom 1)) = false
-    ∧ Arith.minusSimplifyZ (.sub (.atom 0) (.lit 0)) (.atom 0) = true
-    ∧ Arith.minusSimplifyZ (.sub (.atom 0) (.lit 0)) (.lit 0) = false
-    ∧ Arith.unaryMinusSimplifyZ (.neg (.neg (.atom 0))) (.atom 0) = true
-    ∧ Arith.unaryMinusSimplifyZ (.neg (.sub (.atom 0) (.atom 1))) (.atom 1) = false := by
-  refine ⟨by decide, by decide, by decide, by decide, by decide, by decide, by decide⟩
 
 /-! ### resolution -/
 
